@@ -5,6 +5,7 @@ CONSTANTS
     Band = 64
     Chunks = 4
     ASel = "all"
+    CoreDLt = TRUE
     Emit = FALSE
 INVARIANTS
     OffsetAgrees
